@@ -841,8 +841,7 @@ Section OptimSpec.
       well-formed array and the gradient has as many elements as the parameter (C03).
       As in corgi, "frozen" is decided while walking the list: a later handle of a node
       whose gradient was already taken is frozen, so the stepped nodes are always pairwise
-      distinct ([unfrozen_nodup]); the [NoDup] hypothesis of [gd_update_spec] is kept for
-      compatibility and always holds. *)
+      distinct ([unfrozen_nodup]) and no such hypothesis is needed. *)
   Definition gd_pre (s : state) (params : list handle) : Prop :=
     forall h p g, In h params -> h_arr s h = Some p -> grad_of s h = Some g ->
                   wf p /\ length (vals g) = length (vals p).
@@ -865,10 +864,16 @@ Section OptimSpec.
   Qed.
 
   Theorem gd_update_spec : forall (s : state) lr params,
+      gd_pre s params ->
+      exists s' out, gd_update O s lr params = Some (s', out) /\ gd_post s lr params s' out.
+  Proof. exact gd_update_spec_gen. Qed.
+
+  (** the statement with the (always true) hypothesis that the stepped nodes are distinct *)
+  Theorem gd_update_spec_nodup : forall (s : state) lr params,
       NoDup (map e_node (unfrozen s params)) ->
       gd_pre s params ->
       exists s' out, gd_update O s lr params = Some (s', out) /\ gd_post s lr params s' out.
-  Proof. intros s lr params _ H. apply gd_update_spec_gen. exact H. Qed.
+  Proof. intros s lr params _ H. apply gd_update_spec. exact H. Qed.
 
   (** ** Parameter lists with several handles of one node *)
 
@@ -1044,7 +1049,6 @@ Section OptimSpec.
       [w_0; b_0; w_1; b_1; ...] and every layer is rebound, position-wise, to the
       returned handles; nothing else of the state changes. *)
   Theorem model_update_spec : forall s : state,
-      NoDup (map e_node (unfrozen s (model_params s))) ->
       gd_pre s (model_params s) ->
       exists s1 out,
         gd_update O s (st_lr s) (model_params s) = Some (s1, out) /\
@@ -1057,8 +1061,8 @@ Section OptimSpec.
                        nth_error (rebuild_layers (st_layers s) out) k
                        = Some {| l_conv := l_conv l; l_act := l_act l; l_w := w; l_b := b |}).
   Proof.
-    intros s Hnd Hpre.
-    destruct (gd_update_spec s (st_lr s) (model_params s) Hnd Hpre) as (s1 & out & Hup & Hpost).
+    intros s Hpre.
+    destruct (gd_update_spec s (st_lr s) (model_params s) Hpre) as (s1 & out & Hup & Hpost).
     exists s1, out.
     assert (Hlay : st_layers s1 = st_layers s) by (apply Hpost).
     assert (Hlen : length out = 2 * length (st_layers s)).
@@ -1070,6 +1074,21 @@ Section OptimSpec.
     split; [apply rebuild_layers_length|].
     intros k l Hk. apply rebuild_layers_nth; assumption.
   Qed.
+
+  Theorem model_update_spec_nodup : forall s : state,
+      NoDup (map e_node (unfrozen s (model_params s))) ->
+      gd_pre s (model_params s) ->
+      exists s1 out,
+        gd_update O s (st_lr s) (model_params s) = Some (s1, out) /\
+        gd_post s (st_lr s) (model_params s) s1 out /\
+        model_update O s = Some (with_layers s1 (rebuild_layers (st_layers s) out)) /\
+        model_params (with_layers s1 (rebuild_layers (st_layers s) out)) = out /\
+        length (rebuild_layers (st_layers s) out) = length (st_layers s) /\
+        (forall k l, nth_error (st_layers s) k = Some l ->
+           exists w b, nth_error out (2 * k) = Some w /\ nth_error out (2 * k + 1) = Some b /\
+                       nth_error (rebuild_layers (st_layers s) out) k
+                       = Some {| l_conv := l_conv l; l_act := l_act l; l_w := w; l_b := b |}).
+  Proof. intros s _ H. apply model_update_spec. exact H. Qed.
 End OptimSpec.
 
 (** * Examples over exact integers *)
@@ -1130,7 +1149,7 @@ Module OptimExamples.
                    gd_post Z_ops ex_state 2 ex_params s' out.
   Proof.
     destruct gd_update_spec_nonvacuous as [H1 H2].
-    exact (gd_update_spec Z_ops ex_state 2 ex_params H1 H2).
+    exact (gd_update_spec Z_ops ex_state 2 ex_params H2).
   Qed.
 
   (** ** Why the length hypothesis (C03) matters: the first gradient is one element too
